@@ -422,9 +422,14 @@ def paren_transparent(F, rep):
             if base.get("k") in ("Call", "MethodCall"):
                 cal = F.fns.get(callee(base) or "")
                 if cal is not None:
-                    through = any((pat_variant(alt) or "").endswith("ExpressionKind::Parenthesis")
-                                  for x in nodes(fn_body(cal)) if x.get("k") in ("Match", "LetCond", "While")
-                                  for alt in _pats_of(x))
+                    # *every* layer has to come off: a loop on the Parenthesis pattern, or recursion of the helper into itself
+                    loops = any((pat_variant(alt) or "").endswith("ExpressionKind::Parenthesis")
+                                for x in nodes(fn_body(cal)) if x.get("k") in ("While", "Loop")
+                                for y in nodes(x) if y.get("k") in ("Match", "LetCond", "While") for alt in _pats_of(y))
+                    recurses = any((pat_variant(alt) or "").endswith("ExpressionKind::Parenthesis")
+                                   for x in nodes(fn_body(cal)) if x.get("k") in ("Match", "LetCond") for alt in _pats_of(x)) and \
+                        any(callee(y) == cal["_path"] for y in nodes(fn_body(cal)) if y.get("k") in ("Call", "MethodCall"))
+                    through = loops or recurses
             rep.ob("PARENS", "%s|shape-test#%d" % (fname, k), through,
                    ("the shape test `%s` looks through parentheses" % pp(m)[:60].replace("\n", " ")) if through else
                    ("`%s` tests the outermost node of an unresolved expression: wrapped in redundant parentheses the expression is "
